@@ -103,7 +103,8 @@ def plan_C06(ctx):
 
 def plan_C07(ctx):
     run_family(ctx, "dv_small", n_of(ctx, 200, 4000), perfile=n_of(ctx, 20, 40))
-    run_family(ctx, "dv_walk", n_of(ctx, 16, 200), perfile=2)
+    run_family(ctx, "dv_walk", n_of(ctx, 24, 300), perfile=2)
+    require_cov(ctx, "tag:dv_chunk_gap")
     canary(ctx)
 
 
